@@ -356,7 +356,7 @@ func callsTo(fn *ssa.Function, pkgPath, name string) []*ssa.Call {
 			if callee == nil || callee.Pkg == nil || callee.Pkg.Pkg.Path() != pkgPath {
 				continue
 			}
-			n := callee.Name()
+			n := canonName(callee)
 			if r := callee.Signature.Recv(); r != nil {
 				if nt := namedOfType(r.Type()); nt != nil {
 					n = nt.Obj().Name() + "." + n
